@@ -48,6 +48,13 @@ func main() {
 			fmt.Fprintln(os.Stderr, err)
 			os.Exit(2)
 		}
+	case "bce":
+		p, err := load.Load("/repo", false)
+		if err != nil {
+			fmt.Fprintln(os.Stderr, err)
+			os.Exit(2)
+		}
+		rules.DumpBCE(rules.NewCtx(p, "debug", "quick"))
 	case "errors":
 		p, err := load.Load("/repo", false)
 		if err != nil {
